@@ -32,6 +32,25 @@ class _End(Exception):
 PURE_LIB = {"ecb_int", "ecb_str", "ecb_val", "ecb_hex", "_ecb_hex_digit", "ecb_instr", "ecb_string",
             "ecb_read_filter", "_ecb_min", "_ecb_max"}
 RESULT_STUBS = {"ecb_button": "num", "ecb_joystk": "num", "ecb_point": "num", "inkey": "str"}
+_IO_KINDS = {"put", "get", "print", "input", "open", "close", "seek", "write", "read", "poke", "shell", "create", "delete", "chd", "kill", "data"}
+_PURE_CACHE = {}
+
+
+def pure_procedures(lib):
+    """The library procedures that are interpreted rather than recorded: those named in PURE_LIB plus every procedure of the
+    CURRENT library that does no input / output and RUNs only such procedures (so that a helper added to the library
+    tomorrow is executed, not stubbed)."""
+    key = id(lib)
+    if key not in _PURE_CACHE:
+        cand = {n for n, e in lib.items() if n not in RESULT_STUBS and not any(st.k in _IO_KINDS for st in e["proc"].body)}
+        while True:
+            new = {n for n in cand if all(r[0].lower() in cand for r in lib[n]["info"].runs)}
+            if new == cand:
+                break
+            cand = new
+        _PURE_CACHE.clear()
+        _PURE_CACHE[key] = (lib, cand | (PURE_LIB & set(lib)))
+    return _PURE_CACHE[key][1]
 
 
 def to_int16(v):
@@ -626,7 +645,7 @@ class Machine(object):
             c.store(v)
             bound[pname] = c
         saved = getattr(self, "_frame", None)
-        if name in PURE_LIB:
+        if name in pure_procedures(self.lib):
             self.events.append(("libcall", name, tuple((bound[p[0]].v if getattr(bound[p[0]], "init", False) else None)
                                                          for p in inf_params if isinstance(bound.get(p[0]), Cell))))
         self._declare_all(callee, bound)
@@ -647,7 +666,7 @@ class Machine(object):
         name = s.name.lower()
         if name in self.user and self.user[name] is not frame.proc:
             return self.call_proc(frame, name, s.args, self.user[name])
-        if name in self.lib and name in PURE_LIB:
+        if name in self.lib and name in pure_procedures(self.lib):
             return self.call_proc(frame, name, s.args, self.lib[name]["proc"])
         if name in self.lib or name in static.SYSTEM_MODULES:
             vals = []
